@@ -362,8 +362,14 @@ fn family(variant: &str) -> usize {
     }
 }
 
-fn handle<T>(s: &str) -> Handle<T> {
-    Handle::from_str(s).unwrap()
+/// A handle is protocol-valid when it has 1 to 255 characters out of [-_A-Za-z0-9/] (RFC 8183); such a handle is built with the
+/// unchecked constructor, so that the message layer is tested with every protocol-valid value whatever `from_str` thinks of it.
+fn handle<T>(s: &str) -> Result<Handle<T>, String> {
+    if (1..=255).contains(&s.len()) && s.bytes().all(|b| b.is_ascii_alphanumeric() || b == b'-' || b == b'_' || b == b'/') {
+        Ok(Handle::new(s.into()))
+    } else {
+        Err("not a protocol-valid handle".into())
+    }
 }
 
 fn resource_set(k: usize) -> ResourceSet {
@@ -396,8 +402,10 @@ fn limit(k: usize, opt: bool) -> prov::RequestResourceLimit {
 
 pub fn build(ctx: &Ctx, p: &Parts) -> Result<Msg, String> {
     let idc = ctx.id_cert.clone();
-    let sender = || handle(&p.f("sender", "child/ca-1"));
-    let recipient = || handle(&p.f("recipient", "Parent_CA-2"));
+    let sender = handle(&p.f("sender", "child/ca-1"))?;
+    let recipient = handle(&p.f("recipient", "Parent_CA-2"))?;
+    let sender = || sender.clone();
+    let recipient = || recipient.clone();
     let svc = |d: &str| ServiceUri::from_str(&p.f("service_uri", d)).map_err(|e| format!("service uri refused: {e}"));
     let ruri = |name: &str, d: &str| uri::Rsync::from_str(&p.f(name, d)).map_err(|e| format!("{name} refused: {e}"));
     let not_after = Time::utc(2031, 5, 6, 7, 8, 9);
@@ -419,17 +427,17 @@ pub fn build(ctx: &Ctx, p: &Parts) -> Result<Msg, String> {
                 let v = json!({"id_cert": idc.as_str(), "child_handle": p.f("child_handle", "child/ca-1"), "tag": p.tag()});
                 Msg::Child(serde_json::from_value(v).map_err(|e| e.to_string())?)
             } else {
-                Msg::Child(ChildRequest::new(idc, handle(&p.f("child_handle", "child/ca-1"))))
+                Msg::Child(ChildRequest::new(idc, handle(&p.f("child_handle", "child/ca-1"))?))
             }
         }
-        "parent_response" => Msg::Parent(ParentResponse::new(idc, handle(&p.f("parent_handle", "Parent_CA-2")), handle(&p.f("child_handle", "child/ca-1")),
+        "parent_response" => Msg::Parent(ParentResponse::new(idc, handle(&p.f("parent_handle", "Parent_CA-2"))?, handle(&p.f("child_handle", "child/ca-1"))?,
                                                              svc("https://host.example/up/down/")?, p.tag())),
-        "publisher_request" => Msg::Publisher(PublisherRequest::new(idc, handle(&p.f("publisher_handle", "pub-1")), p.tag())),
+        "publisher_request" => Msg::Publisher(PublisherRequest::new(idc, handle(&p.f("publisher_handle", "pub-1"))?, p.tag())),
         "repository_response" => {
             let notify = if p.opt || p.focus == "rrdp_notification_uri" {
                 Some(uri::Https::from_str(&p.f("rrdp_notification_uri", "https://host.example/rrdp/notification.xml")).map_err(|e| format!("notify refused: {e}"))?)
             } else { None };
-            Msg::Repo(RepositoryResponse::new(idc, handle(&p.f("publisher_handle", "pub-1")), svc("https://host.example/publish/")?,
+            Msg::Repo(RepositoryResponse::new(idc, handle(&p.f("publisher_handle", "pub-1"))?, svc("https://host.example/publish/")?,
                                               ruri("sia_base", "rsync://host.example/module/pub-1/")?, notify, p.tag()))
         }
         "prov_list" => Msg::Prov(prov::Message::list(sender(), recipient())),
@@ -509,6 +517,13 @@ fn xml_place(variant: &str, field: &str) -> Option<(&'static str, &'static str)>
         ("repository_response", "service_uri") => ("repository_response", "service_uri"),
         ("repository_response", "sia_base") => ("repository_response", "sia_base"),
         ("repository_response", "rrdp_notification_uri") => ("repository_response", "rrdp_notification_uri"),
+        ("child_request", "child_handle") => ("child_request", "child_handle"),
+        ("parent_response", "child_handle") => ("parent_response", "child_handle"),
+        ("parent_response", "parent_handle") => ("parent_response", "parent_handle"),
+        ("publisher_request", "publisher_handle") => ("publisher_request", "publisher_handle"),
+        ("repository_response", "publisher_handle") => ("repository_response", "publisher_handle"),
+        (_, "sender") => ("message", "sender"),
+        (_, "recipient") => ("message", "recipient"),
         (_, "class_name") if variant == "prov_issue" => ("request", "class_name"),
         (_, "class_name") if variant.starts_with("prov_revoke") => ("key", "class_name"),
         (_, "class_name") => ("class", "class_name"),
@@ -531,7 +546,8 @@ fn find_any<'n>(n: &'n Node, attr: &str) -> Option<&'n (String, String, String)>
 }
 
 fn toks(v: &Value) -> String {
-    v.as_array().unwrap().iter().map(|x| x.as_str().unwrap()).collect()
+    // the token "x254" stands for 254 letters
+    v.as_array().unwrap().iter().map(|x| match x.as_str().unwrap() { "x254" => "b".repeat(254), t => t.to_string() }).collect()
 }
 
 type R<T> = Result<T, (String, String)>;
